@@ -7,6 +7,15 @@ TRUSTED_COMMON = [
 ]
 
 PROPS = {
+    "C09": {
+        "title": "Block signatures and anchor",
+        "design_ref": "DESIGN.md §3 C09",
+        "technique": "Lean 4 invariant proofs over a model of ProcessSigPool / SetAnchorBlock / commit signing (threshold and operators regenerated) + differential correspondence on adversarial pools + re-verification oracle",
+        "level_text": "Proof (Lean 4) for the model: a signature is recorded on a block only if it is a pooled, well-formed signature for that block index by a member of the block's round set that verifies against the node's own body (recorded_only_valid); the anchor always designates a stored block with more recorded signers than TrustCount, i.e. more than a third of its round's validators, after any sequence of pool runs (processPool_inv, anchor_more_than_third); the anchor index never decreases (anchor_monotone_step); the node's own signature is placed only in commit, on the block just delivered, and only if it is a validator of that round (own_signature_on_commit). Signatures gossiped in events are attributed to the creator by the wire format (WireBlockSignature carries no validator). Tied to the code by injecting adversarial pools into real cores while they gossip with joins/leaves, comparing every ProcessSigPool run with the model and re-verifying every recorded signature with the real Verify.",
+        "level_note": "Trusted: Lean kernel; extractor (anchor operators, TrustCount); validity / well-formedness / membership bits computed by the real code; the validator set of an existing block's round is fixed (C10).",
+        "trusted_base": ["signature validity, well-formedness and membership are input bits from Block.Verify / keys.DecodeSignature / Store.GetPeerSet", "SigPool model tied to ProcessSigPool by correspondence (map iteration order: the result is order independent; compared as sets)"],
+        "assumptions": ["ECDSA unforgeability; the state hash is part of the signed body (BlockBody.Hash covers StateHash)"],
+    },
     "C17": {
         "title": "A node that is not babbling changes nothing; a suspended node still serves syncs",
         "design_ref": "DESIGN.md §3 C17",
